@@ -58,6 +58,9 @@ def relabel(y_idx, kind, K, rng):
         names = np.array([0, 1])
     elif kind == "str":
         names = np.array(sorted(["c%02d_%s" % (i, "xyz"[i % 3]) for i in rng.choice(50, K, replace=False)]))
+    elif kind == "nonpos":
+        # all labels negative or zero (a label is a name, not a sign)
+        names = np.sort(rng.choice(np.arange(-9, 1), K, replace=False))
     elif kind == "reversed":
         names = np.arange(K)[::-1] * 3 + 1
     else:
@@ -117,7 +120,7 @@ def one(emit, cid, clf, rng, sample):
     y_idx = make_labels(rng, n, K, X)
     _, y_idx = np.unique(y_idx, return_inverse=True)     # (re-assignments above may have emptied a class)
     K = int(y_idx.max()) + 1
-    kind = str(rng.choice(["int", "str", "pm1", "01", "plain"]))
+    kind = str(rng.choice(["int", "str", "pm1", "01", "plain", "nonpos"]))
     y, names = relabel(y_idx, kind, K, rng)
     # the same labels in another storage type (what a label is must not depend on how the array stores it)
     if kind in ("01", "plain") or (kind == "int" and names.min() >= 0):
